@@ -71,7 +71,13 @@ func (r *rangeLoop) key(v ssa.Value) bool {
 	return ok && e.Tuple == ssa.Value(r.Next) && e.Index == 1
 }
 func (r *rangeLoop) val(v ssa.Value) bool {
-	e, ok := stripConv(v).(*ssa.Extract)
+	v = stripConv(v)
+	// `for k := range m { … m[k] … }`: the value under the key the scan yields, read from the same unchanged map
+	if l, isL := v.(*ssa.Lookup); isL && !l.CommaOk && r.key(l.Index) {
+		ensureEquiv(l.Parent())
+		return kstr(l.X) == kstr(r.Range.X)
+	}
+	e, ok := v.(*ssa.Extract)
 	return ok && e.Tuple == ssa.Value(r.Next) && e.Index == 2
 }
 func (r *rangeLoop) body() *ssa.BasicBlock { return r.Next.Block().Succs[0] }
@@ -494,6 +500,9 @@ func checkC15(c *Ctx, w *World) {
 				call, ok := in.(*ssa.Call)
 				if !ok || !call.Call.IsInvoke() || call.Call.Method.Name() != "SetEndpointAvailability" || !inner.Blocks[call.Block()] {
 					return
+				}
+				if os.Getenv("VERIF_DEBUG") != "" {
+					fmt.Println("DEBUG sync cand", p.ipos(call), inner.val(call.Call.Value), outer.key(call.Call.Args[0]), kstr(call.Call.Value), "|", kstr(inner.Range.X))
 				}
 				if !inner.val(call.Call.Value) || !outer.key(call.Call.Args[0]) {
 					return
